@@ -63,7 +63,7 @@ def cases():
     # 11: defaults inherited through subdirs when the child has defaults for the other kind only
     f = {"laze-project.yml": [{"contexts": [{"name": "default", "rules": RULES, "env": {"bindir": "${build-dir}/${builder}/${app}"}}],
                                "builders": [{"name": "b0"}], "subdirs": ["sub"],
-                               "defaults": {"module": {"depends": ["basem"], "env": {"local": {"CFLAGS": ["-DFROM_DEFAULTS"]}}, "sources": ["common.c"]},
+                               "defaults": {"module": {"selects": ["basem"], "uses": ["basem"], "env": {"local": {"CFLAGS": ["-DFROM_DEFAULTS"]}}, "sources": ["common.c"]},
                                             "app": {"selects": ["basem"]}},
                                "modules": [{"name": "basem", "sources": ["base.c"]}]}],
          "sub/laze.yml": [{"defaults": {"app": {"env": {"global": {"X": "subapp"}}}}, "subdirs": ["deep"],
@@ -76,4 +76,10 @@ def cases():
     out.append((base([], [{"name": "app", "sources": ["main.c"]}], contexts=ctxs,
                      builders=[{"name": "b0", "parent": "c0"}, {"name": "b1", "parent": "c1"},
                                {"name": "b2", "parent": "c0", "var_options": {"CFLAGS": {"from": "LIBS", "prefix": "-L"}}, "env": {"LIBS": ["x"]}}]), {}))
+    # 13: --select of a module the app already lists later, where order matters (mutual conflict)
+    mods = [{"name": "impl_a", "conflicts": ["impl_b"], "sources": ["a.c"], "env": {"global": {"X": "flavor_a"}}},
+            {"name": "impl_b", "conflicts": ["impl_a"], "sources": ["b.c"], "env": {"global": {"X": "flavor_b"}}}]
+    apps = [{"name": "app", "sources": ["main.c"], "selects": ["?impl_a", "?impl_b"]}]
+    for cli in ({"select": ["?impl_b"]}, {"select": ["impl_b"]}, {"select": ["?impl_b", "?impl_a"]}, {"disable": ["impl_a"]}, {"define": ["X+=cli", "X+=cli2"]}):
+        out.append((base(mods, apps), cli))
     return out
